@@ -3,6 +3,7 @@ package main
 import (
 	"bytes"
 	"fmt"
+	"os"
 	"sort"
 	"strings"
 	"sync"
@@ -132,12 +133,43 @@ func checkC01(tier string) int {
 			// block-end work that touches several validators at once
 			params.NumGenesisVals, params.TopValidators, params.NumCandidates = 7, 8, 1
 			scripts = exitScripts
+			// (five small validators and two large ones: the small ones can all stop signing at once without
+			// the commits losing their two thirds)
+			params.GenesisPowers = []int64{3000000, 3100000, 3200000, 3300000, 3400000, 20000000, 30000000}
+			if i%2 == 0 {
+				// (every other one without the mass exit, with seven small validators of nine: they sign a few
+				// blocks, then stop)
+				scripts = allScripts
+				params.NumGenesisVals, params.TopValidators = 9, 10
+				params.GenesisPowers = []int64{3000000, 3100000, 3200000, 3300000, 3400000, 3500000, 3600000, 40000000, 50000000}
+			}
+		}
+		if i%3 == 0 && i > 0 {
+			// (one more history of that shape among the ordinary ones)
+			params.NumGenesisVals, params.TopValidators, params.NumCandidates = 9, 10, 1
+			params.GenesisPowers = []int64{3000000, 3100000, 3200000, 3300000, 3400000, 3500000, 3600000, 40000000, 50000000}
 		}
 		restarted := false
 		cfg := drive.Cfg{
 			Tag: "c01", Seed: hseed, Blocks: blocks, Params: params, Scripts: scripts, Scout: true, Jumps: true, Absents: true, Honest: true,
 		}
 		w0, _ := world.New(params)
+		if i%3 == 2 || (i%3 == 0 && i > 0) {
+			// the five small validators stop signing in the same block, for good: they all fall short of the
+			// required votes in the same block (and are frozen together)
+			cfg.ForceAbsent = func(h int64) []string {
+				// (from the first block on, or — every other such history — after they have come back from the
+				// mass exit of block 6)
+				if (i%3 == 2 && i%2 == 1) || h < 6 || h > 16 {
+					return nil
+				}
+				var out []string
+				for k := 0; k < 7 && k < len(w0.Vals) && w0.Vals[k].Power < 10000000; k++ {
+					out = append(out, hist.HexAddr(w0.Vals[k].ValAddr.String()))
+				}
+				return out
+			}
+		}
 		cfg.Specs = []world.NodeSpec{
 			{Name: "stranger", Stranger: "a", LogLevel: 2},
 			{Name: "val-witness", Validator: w0.Vals[1], LogLevel: 0},
@@ -227,6 +259,15 @@ func checkC01(tier string) int {
 					r.Inconclusive("restart of val-witness failed: " + err.Error())
 					return true
 				}
+			}
+			if os.Getenv("DEBUG_C01") != "" && i%3 == 2 {
+				n := 0
+				for k := range blk.Cur {
+					if strings.HasPrefix(k, "es__ssvk_") {
+						n++
+					}
+				}
+				fmt.Printf("DEBUG i=%d h=%d suspicious=%d absent=%d updates=%d\n", i, blk.H, n, len(blk.Recipe.Absent), len(blk.End.ValUpdates))
 			}
 			// one of the strangers is stopped and started again now and then, at heights that are not the first
 			// block of a reward cycle: what a node keeps in memory between blocks is a node-local circumstance
